@@ -551,6 +551,7 @@ func (r *Runner) cmd(ctx context.Context, cm syntax.Command) {
 			r.cmd(ctx, cm.Else)
 		}
 	case *syntax.WhileClause:
+		var lastCode uint8 // status of the last command run in the body
 		for !r.stop(ctx) {
 			oldNoErrExit := r.noErrExit
 			r.noErrExit = true
@@ -559,7 +560,17 @@ func (r *Runner) cmd(ctx context.Context, cm syntax.Command) {
 
 			stop := r.exit.ok() == cm.Until
 			r.exit.clear()
-			if stop || r.loopStmtsBroken(ctx, cm.Do) {
+			if stop {
+				// The loop's status is that of the last body command, not
+				// that of the condition which ended it.
+				if r.exit.ok() {
+					r.exit.code = lastCode
+				}
+				break
+			}
+			broken := r.loopStmtsBroken(ctx, cm.Do)
+			lastCode = r.exit.code
+			if broken {
 				break
 			}
 		}
